@@ -32,6 +32,8 @@ use vh::net::sctp_wire::{build_packet, Chunk};
 const CALL_BOUND: Duration = Duration::from_secs(2);
 /// bound for "what the connection reports has settled" after an event
 const SETTLE_MAX: Duration = Duration::from_secs(3);
+/// ... and how long a visible end that is *expected* is waited for before its absence is recorded
+const END_MAX: Duration = Duration::from_secs(12);
 /// bound for task / socket release after the final close + drop (connectivity checks in flight end with the
 /// STUN timeout, configured to 1 s below)
 const RELEASE_BOUND: Duration = Duration::from_secs(5);
@@ -142,10 +144,27 @@ async fn wait_until<F: FnMut() -> bool>(mut f: F, max: Duration) -> Option<Durat
         tokio::time::sleep(Duration::from_millis(5)).await;
     }
 }
+/// Two-stage observation of "returns promptly": the call is awaited for `max`; if it has not returned by then
+/// it is *re-observed* (the same future keeps being awaited, up to LONG_WAIT more) before it may count as a
+/// hang. The reported duration tells which stage it was.
 async fn timed<T, F: std::future::Future<Output = T>>(f: F, max: Duration) -> (Option<T>, Duration) {
     let t0 = Instant::now();
-    let r = tokio::time::timeout(max, f).await.ok();
+    tokio::pin!(f);
+    if let Ok(r) = tokio::time::timeout(max, &mut f).await { return (Some(r), t0.elapsed()); }
+    let r = tokio::time::timeout(long_wait(), &mut f).await.ok();
     (r, t0.elapsed())
+}
+/// same for a condition that is polled
+async fn wait_until2<F: FnMut() -> bool>(mut f: F, max: Duration) -> Option<Duration> {
+    let t0 = Instant::now();
+    loop {
+        if f() { return Some(t0.elapsed()); }
+        if t0.elapsed() > max + long_wait() { return None; }
+        tokio::time::sleep(Duration::from_millis(5)).await;
+    }
+}
+fn long_wait() -> Duration {
+    Duration::from_secs(std::env::var("C17_LONG_WAIT_S").ok().and_then(|x| x.parse().ok()).unwrap_or(20))
 }
 fn tasks() -> usize { tokio::runtime::Handle::current().metrics().num_alive_tasks() }
 /// (local port, socket inode) of every UDP socket in this network namespace
@@ -189,7 +208,9 @@ fn dc_cfg() -> DataChannelConfig {
 
 // ------------------------------------------------------------------------------------ scenarios
 #[derive(Clone, Copy, Debug, PartialEq, Eq, Hash)]
-enum Phase { Created, Gathering, OfferSet, Checking, DtlsHandshaking, DtlsConnected, ChannelsOpen, MediaFlowing, RtpCreated, RtpFlowing }
+enum Phase { Created, Gathering, OfferSet, Checking, DtlsHandshaking, DtlsConnected, ChannelsOpen, MediaFlowing, RtpCreated, RtpFlowing,
+    /// the instant A reports Connected (SCTP still connecting or just up, transport loops just spawned): oracle only
+    JustConnected, JustConnectedMedia }
 impl Phase {
     fn model(self) -> &'static str {
         match self {
@@ -199,10 +220,11 @@ impl Phase {
             Phase::DtlsHandshaking => "PhDtlsHandshaking",
             Phase::DtlsConnected => "PhDtlsConnected",
             Phase::ChannelsOpen | Phase::MediaFlowing => "PhChannelsOpen",
+            Phase::JustConnected | Phase::JustConnectedMedia => "-",
             Phase::RtpFlowing => "PhDirectConnected",
         }
     }
-    fn has_channel(self) -> bool { !matches!(self, Phase::DtlsConnected | Phase::RtpFlowing) }
+    fn has_channel(self) -> bool { !matches!(self, Phase::DtlsConnected | Phase::RtpFlowing | Phase::JustConnectedMedia) }
     fn mode(self) -> TransportMode { if matches!(self, Phase::RtpCreated | Phase::RtpFlowing) { TransportMode::Rtp } else { TransportMode::WebRtc } }
 }
 #[derive(Clone, Copy, Debug, PartialEq, Eq, Hash)]
@@ -383,14 +405,14 @@ async fn setup(phase: Phase, ev: Ev) -> Result<Setup, String> {
                 return Err("never reached ICE checking".into());
             }
         }
-        Phase::DtlsHandshaking | Phase::DtlsConnected | Phase::ChannelsOpen | Phase::MediaFlowing | Phase::RtpFlowing => {
+        Phase::DtlsHandshaking | Phase::DtlsConnected | Phase::ChannelsOpen | Phase::MediaFlowing | Phase::RtpFlowing | Phase::JustConnected | Phase::JustConnectedMedia => {
             let b = PeerConnection::new(cfg(mode.clone()));
             if with_dc {
                 let dcb = b.create_data_channel("neg", Some(dc_cfg())).map_err(|e| e.to_string())?;
                 let (cb, hb) = collect(dcb.clone());
                 s.dcb = Some(dcb); s.cb = Some(cb); s.hs.push(hb);
             }
-            if matches!(phase, Phase::DtlsConnected) {
+            if matches!(phase, Phase::DtlsConnected | Phase::JustConnectedMedia) {
                 a.add_transceiver(MediaKind::Audio, TransceiverDirection::SendRecv);
                 b.add_transceiver(MediaKind::Audio, TransceiverDirection::SendRecv);
             }
@@ -412,6 +434,14 @@ async fn setup(phase: Phase, ev: Ev) -> Result<Setup, String> {
                 let _ = wait_until(|| a2.verif_dtls_transport().is_some(), Duration::from_secs(2)).await;
                 drop(a2);
                 tokio::time::sleep(Duration::from_millis(30)).await;
+            } else if matches!(phase, Phase::JustConnected | Phase::JustConnectedMedia) {
+                // no settling at all: the event lands the moment A itself reports Connected
+                let (r, _) = timed(a.wait_for_connected(), Duration::from_secs(8)).await;
+                if !matches!(r, Some(Ok(_))) {
+                    s.b = Some(b); s.a = Some(a);
+                    teardown_quiet(s).await;
+                    return Err("A never reported Connected".into());
+                }
             } else {
                 let (r, _) = timed(async { tokio::try_join!(a.wait_for_connected(), b.wait_for_connected()) }, Duration::from_secs(8)).await;
                 let mut ok = matches!(r, Some(Ok(_)));
@@ -585,7 +615,11 @@ async fn run_scenario(sc: Scenario) -> Outcome {
         let now_c = cc(&s.ca);
         if now != last || now_c != last_c { last = now; last_c = now_c; stable_since = Instant::now(); }
         let ended = last.reason.is_some() && matches!(last.peer, PeerConnectionState::Disconnected | PeerConnectionState::Failed | PeerConnectionState::Closed);
-        let quiet = stable_since.elapsed() > Duration::from_millis(if want_end && !ended { 1500 } else { 300 });
+        let quiet = stable_since.elapsed() > Duration::from_millis(400);
+        if want_end && !ended && ev != Ev::DropStarved {
+            if t_event.elapsed() > END_MAX { break; }
+            continue;
+        }
         if ev == Ev::DropStarved {
             // bounded by the DTLS handshake timeout (30 s) + margin
             if (ended && quiet) || t_event.elapsed() > Duration::from_secs(36) { break; }
@@ -605,10 +639,10 @@ async fn run_scenario(sc: Scenario) -> Outcome {
     if let Some(t) = sender_task.take() {
         if ev.drops_a() { out.sender = 0; } else {
             let t0 = Instant::now();
-            match tokio::time::timeout(CALL_BOUND, t).await {
-                Ok(Ok((_n, e))) => { out.sender = if e == "never blocked" { 2 } else { 1 }; out.sender_latency_ms = Some(ms(t0.elapsed())); }
-                Ok(Err(_)) => { out.sender = 0; }
-                Err(_) => { out.sender = 3; }
+            match timed(t, CALL_BOUND).await.0 {
+                Some(Ok((_n, e))) => { out.sender = if e == "never blocked" { 2 } else { 1 }; out.sender_latency_ms = Some(ms(t0.elapsed())); }
+                Some(Err(_)) => { out.sender = 0; }
+                None => { out.sender = 3; }
             }
         }
     }
@@ -630,16 +664,16 @@ async fn run_scenario(sc: Scenario) -> Outcome {
             out.calls.push(("wait_for_connected".into(), r.map(|x| if x.is_ok() { "Ok".to_string() } else { "Err".to_string() }), ms(d)));
         }
         if closed {
-            let fin = wait_until(|| pending_recv.is_finished(), CALL_BOUND).await;
+            let fin = wait_until2(|| pending_recv.is_finished(), CALL_BOUND).await;
             out.calls.push(("pc.recv (pending since before the event)".into(), fin.map(|_| "returned".to_string()), fin.map(ms).unwrap_or(ms(CALL_BOUND))));
             let (r, d) = timed(a.recv(), CALL_BOUND).await;
             out.calls.push(("pc.recv".into(), r.map(|x| if x.is_some() { "Some".to_string() } else { "None".to_string() }), ms(d)));
             if let Some(p) = &pending_wait {
-                let fin = wait_until(|| p.is_finished(), CALL_BOUND).await;
+                let fin = wait_until2(|| p.is_finished(), CALL_BOUND).await;
                 out.calls.push(("wait_for_connected (pending since before the event)".into(), fin.map(|_| "returned".to_string()), fin.map(ms).unwrap_or(ms(CALL_BOUND))));
             }
             if let Some(ca) = &s.ca {
-                let fin = wait_until(|| ca.ended.load(Ordering::SeqCst) == 1, CALL_BOUND).await;
+                let fin = wait_until2(|| ca.ended.load(Ordering::SeqCst) == 1, CALL_BOUND).await;
                 out.calls.push(("dc.recv (pending since before the event) -> None".into(), fin.map(|_| "returned".to_string()), fin.map(ms).unwrap_or(ms(CALL_BOUND))));
             }
             if let Some(dc) = &s.dca {
@@ -664,8 +698,7 @@ async fn run_scenario(sc: Scenario) -> Outcome {
     if rel.is_none() {
         // re-observe with a much longer wait before calling it a leak (a loaded machine, or a timer-bound task)
         let n5 = tasks();
-        let long = Duration::from_secs(std::env::var("C17_LONG_WAIT_S").ok().and_then(|x| x.parse().ok()).unwrap_or(20));
-        rel = wait_until(|| tasks() == 0, long).await;
+        rel = wait_until(|| tasks() == 0, long_wait()).await;
         out.reobserved = true;
         out.notes.push(format!("{} task(s) still alive {} ms after the final close + drop; re-observed: {}", n5, ms(RELEASE_BOUND),
             match rel { Some(_) => format!("all gone after {} ms", ms(t_rel.elapsed())), None => format!("{} still alive after {} ms", tasks(), ms(t_rel.elapsed())) }));
@@ -735,8 +768,10 @@ fn judge(sc: &Scenario, o: &Outcome) -> (String, Option<String>, serde_json::Val
         if ended != 1 { fails.push("after the final close() the channel event stream has not ended".into()); }
     }
     // O4: calls return
+    let mut slow: Vec<String> = vec![];
     for (name, res, t) in &o.calls {
         if res.is_none() { fails.push(format!("{} did not return within {} ms", name, t)); }
+        else if *t > ms(CALL_BOUND) { slow.push(format!("{} took {} ms (first bound {} ms, re-observed)", name, t, ms(CALL_BOUND))); }
         if name == "send_data" && ev.ends_assoc() && sc.phase.has_channel() {
             if res.as_deref() == Some("Ok") { fails.push("send_data on a channel of an ended connection returned Ok".into()); }
         }
@@ -746,13 +781,13 @@ fn judge(sc: &Scenario, o: &Outcome) -> (String, Option<String>, serde_json::Val
     }
     // O6: release
     if o.tasks_after_release != 0 {
-        fails.push(format!("{} task(s) of the connection pair still alive {} ms after the final close + drop", o.tasks_after_release, ms(RELEASE_BOUND)));
+        fails.push(format!("{} task(s) of the connection pair still alive {} ms after the final close + drop (first bound {} ms, re-observed)", o.tasks_after_release, ms(RELEASE_BOUND + long_wait()), ms(RELEASE_BOUND)));
     }
     if !o.ports_still_bound.is_empty() { fails.push(format!("UDP ports {:?} still bound after the final close + drop", o.ports_still_bound)); }
     // ------------------------------------------------------------------ model term
     let chans = match o.chan { Some((op, cl, en)) => format!("[({}, {}, {})]", op, cl, if en == 1 { "true" } else { "false" }), None => "[]".into() };
-    let term = format!("mkCase {} {} {} {} {} {} {} {}", sc.phase.model(), ev.threads(sc.phase, o.dtls_saw_close_notify), peer_term(after.peer), ice_term(after.ice), sig_term(after.sig),
-        reason_term(&after.reason), chans, o.sender);
+    let term = if sc.phase.model() == "-" { "-".to_string() } else { format!("mkCase {} {} {} {} {} {} {} {}", sc.phase.model(), ev.threads(sc.phase, o.dtls_saw_close_notify), peer_term(after.peer), ice_term(after.ice), sig_term(after.sig),
+        reason_term(&after.reason), chans, o.sender) };
     let desc = json!({
         "scenario": desc_base,
         "model": {"phase": sc.phase.model(), "threads": ev.threads(sc.phase, o.dtls_saw_close_notify)}, "peer_close_notify_reached_dtls": o.dtls_saw_close_notify,
@@ -762,7 +797,7 @@ fn judge(sc: &Scenario, o: &Outcome) -> (String, Option<String>, serde_json::Val
         "sender_release_ms": o.sender_latency_ms,
         "calls": o.calls.iter().map(|(n, r, t)| json!({"call": n, "result": r, "ms": t})).collect::<Vec<_>>(),
         "settle_ms": o.settle_ms, "tasks_before_event": o.tasks_before_event, "tasks_after_release": o.tasks_after_release,
-        "release_ms": o.release_ms, "setup_attempts": o.setup_attempts, "udp_ports": o.ports, "udp_ports_still_bound": o.ports_still_bound, "notes": o.notes,
+        "release_ms": o.release_ms, "reobserved": o.reobserved || !slow.is_empty(), "slow_observations": slow, "setup_attempts": o.setup_attempts, "udp_ports": o.ports, "udp_ports_still_bound": o.ports_still_bound, "notes": o.notes,
     });
     let fail = if fails.is_empty() { None } else { Some(fails.join("; ")) };
     (term, fail, desc, true)
@@ -848,6 +883,8 @@ fn scenarios(tier: &str, seed: u64) -> Vec<Scenario> {
         (ChannelsOpen, vec![Close, Drop, CloseTwice, CloseThenDrop, CloseNotify, Abort, ShutdownAck, ShutdownThenComplete, ShutdownAlone, IceStop,
                             IceStopThenClose, PeerClose, PeerDrop, RaceCloseNotify, RaceCloseAbort, RaceCloseClose, BlockedThenClose, BlockedThenAbort, BlockedThenCloseNotify]),
         (MediaFlowing, vec![Close, Drop, CloseNotify, Abort, RaceCloseNotify]),
+        (JustConnected, vec![Close, Drop, CloseThenDrop, PeerClose]),
+        (JustConnectedMedia, vec![Close, Drop, PeerClose]),
         (RtpCreated, vec![Close, Drop]),
         (RtpFlowing, vec![Close, Drop, CloseTwice, IceStop, IceStopThenClose, PeerClose]),
     ];
@@ -868,6 +905,18 @@ fn scenarios(tier: &str, seed: u64) -> Vec<Scenario> {
         }
     }
     v
+}
+
+fn run_one(sc: &Scenario) -> Outcome {
+    let rt = if sc.yields.is_some() { tokio::runtime::Builder::new_current_thread().enable_all().build().unwrap() }
+             else { tokio::runtime::Builder::new_multi_thread().worker_threads(2).enable_all().build().unwrap() };
+    let sc2 = sc.clone();
+    let o = match vh::catch(std::panic::AssertUnwindSafe(|| rt.block_on(run_scenario(sc2)))) {
+        Ok(o) => o,
+        Err(p) => Outcome { setup_failed: Some(format!("panic: {}", p)), panicked: true, ..Default::default() },
+    };
+    rt.shutdown_timeout(Duration::from_millis(200));
+    o
 }
 
 fn main() {
@@ -894,14 +943,7 @@ fn main() {
         hs.push(std::thread::spawn(move || loop {
             let item = { queue.lock().unwrap().pop() };
             let Some((i, sc)) = item else { break };
-            let rt = if sc.yields.is_some() { tokio::runtime::Builder::new_current_thread().enable_all().build().unwrap() }
-                     else { tokio::runtime::Builder::new_multi_thread().worker_threads(2).enable_all().build().unwrap() };
-            let sc2 = sc.clone();
-            let o = match vh::catch(std::panic::AssertUnwindSafe(|| rt.block_on(run_scenario(sc2)))) {
-                Ok(o) => o,
-                Err(p) => Outcome { setup_failed: Some(format!("panic: {}", p)), panicked: true, ..Default::default() },
-            };
-            rt.shutdown_timeout(Duration::from_millis(200));
+            let o = run_one(&sc);
             results.lock().unwrap().push((i, o));
         }));
     }
@@ -915,16 +957,47 @@ fn main() {
         let mut done = false;
         for _ in 0..3 {
             match vh::catch(std::panic::AssertUnwindSafe(|| rt.block_on(uut_case(cause)))) {
-                Ok(r) => { uut_results.push(r); done = true; break; }
+                Ok(r) => { uut_results.push((cause, r)); done = true; break; }
                 Err(_) => {}
             }
         }
         if !done { uut_setup_failed += 1; }
     }
-    rt.shutdown_timeout(Duration::from_millis(200));
     for h in hs { let _ = h.join(); }
     let mut res = std::mem::take(&mut *results.lock().unwrap());
     res.sort_by_key(|(i, _)| *i);
+    // ---- second opinion in isolation: a scenario (or SCTP-level case) whose oracle failed is run once more with
+    // nothing else going on in the harness; only a failure that shows again becomes an oracle_fail. Every such
+    // retry is reported in the evidence (`retried_cases`, with what the first attempt said).
+    let mut retried: Vec<serde_json::Value> = vec![];
+    for (i, o) in res.iter_mut() {
+        let sc = &scs[*i];
+        let (_, fail, _, ok) = judge(sc, o);
+        if ok && fail.is_none() { continue; }
+        if !ok && !o.panicked { /* could not be set up under load: try once more alone */ }
+        let first = fail.clone().or_else(|| o.setup_failed.clone()).unwrap_or_default();
+        let mut o2 = run_one(sc);
+        let (_, fail2, _, ok2) = judge(sc, &o2);
+        retried.push(json!({"scenario": format!("{:?} {:?} jitter {} yields {:?}", sc.phase, sc.ev, sc.jitter_ms, sc.yields),
+            "first_attempt": first, "isolated_rerun": if !ok2 { "could not be set up".to_string() } else { fail2.clone().unwrap_or_else(|| "passed".into()) }}));
+        o2.notes.push(format!("isolated re-run; the first attempt (run in parallel with others) said: {}", first));
+        o2.reobserved = true;
+        *o = o2;
+    }
+    let mut uut_final = vec![];
+    for (cause, (desc, fail)) in uut_results {
+        if fail.is_none() { uut_final.push((desc, fail)); continue; }
+        let first = fail.clone().unwrap_or_default();
+        match vh::catch(std::panic::AssertUnwindSafe(|| rt.block_on(uut_case(cause)))) {
+            Ok((d2, f2)) => {
+                retried.push(json!({"scenario": format!("sctp-level {}", cause), "first_attempt": first, "isolated_rerun": f2.clone().unwrap_or_else(|| "passed".into())}));
+                uut_final.push((d2, f2));
+            }
+            Err(_) => { retried.push(json!({"scenario": format!("sctp-level {}", cause), "first_attempt": first, "isolated_rerun": "could not be set up"})); uut_final.push((desc, fail)); }
+        }
+    }
+    let uut_results = uut_final;
+    rt.shutdown_timeout(Duration::from_millis(200));
 
     let mut out = vh::Out::new(&args.out);
     let mut setup_failed = 0usize;
@@ -934,6 +1007,7 @@ fn main() {
     let mut max_sender_ms: f64 = 0.0;
     let mut per_phase: std::collections::BTreeMap<String, usize> = Default::default();
     let mut per_event: std::collections::BTreeMap<String, usize> = Default::default();
+    let mut reobserved = 0usize;
     for (desc, fail) in uut_results {
         if let Some(l) = desc.get("sender_release_ms").and_then(|x| x.as_f64()) { max_sender_ms = max_sender_ms.max(l); }
         out.push(vh::Case { term: "-".into(), key: desc.to_string(), desc, oracle_fail: fail, known: None, nontrivial: true, kind: "sctp-level".into() });
@@ -941,6 +1015,7 @@ fn main() {
     for (i, o) in &res {
         let sc = &scs[*i];
         let (term, fail, desc, ok) = judge(sc, o);
+        if desc.get("reobserved").and_then(|x| x.as_bool()).unwrap_or(false) { reobserved += 1; }
         if !ok {
             setup_failed += 1;
             if o.panicked { panics += 1; }
@@ -966,7 +1041,7 @@ fn main() {
             oracle_fail: Some(format!("{} of {} scenarios could not be brought to their phase", setup_failed, n)), known: None, nontrivial: false, kind: "harness".into() });
     }
     out.finish(json!({"generator": {
-        "tier": args.tier, "seed": args.seed, "scenarios": n, "setup_failed": setup_failed, "sctp_level_setup_failed": uut_setup_failed, "panics": panics,
+        "tier": args.tier, "seed": args.seed, "scenarios": n, "retried_cases": retried.len(), "retries": retried, "reobserved_cases": reobserved, "setup_failed": setup_failed, "sctp_level_setup_failed": uut_setup_failed, "panics": panics,
         "phases": per_phase, "events": per_event,
         "bounds_ms": {"call": ms(CALL_BOUND), "settle": ms(SETTLE_MAX), "release": ms(RELEASE_BOUND)},
         "observed_max_ms": {"api_call_after_event": max_call_ms, "release_after_final_close_and_drop": max_release_ms, "parked_sender_release": max_sender_ms},
